@@ -8,7 +8,7 @@ D5 who records ownership (the forwarder only, never the probe path), with which 
 D6 a tracker hit naming a vanished link falls back to the holder scan.
 """
 from ..absint import AbsInt, Entry, Num
-from ..ctx import CONN, is_call, is_field, sname
+from ..ctx import CONN, is_call, is_field, sname, some_of
 from ..expr import show, walk
 from ..pathcond import calls_to, field_stores
 from . import C06
@@ -120,7 +120,7 @@ def d2_holder_only(ctx):
     rv = pa.fa._val_call(rt, (rb, len(f.blocks[rb]["stmts"])), 0)
     okargs = is_field(rv[2][0], "packet_log", CONN) and rv[2][1] == ("param", 2)
     ctx.chk.ob("D2", "the removal is packet_log.remove(&seq)", okargs, show(rv, f.names), key="D2:remove-args")
-    found = [fm for (a, fm) in pa.find(lambda a: is_call(a, name_contains="Option::<T>::is_some") and a[2][0] == rv)]
+    found = [fm for (a, fm) in some_of(pa, lambda x: x == rv)]
     if not found:
         ctx.chk.missing("D2", "handle_nak: is_some(remove(..)) test", "")
         return
